@@ -29,7 +29,7 @@ CHECKS = {
   "DESIGN.md section 5 C06"),
  "C07": ("fault_enumeration",
   "runtime monitoring with crash-point enumeration: connection cut / read error injected at every octet offset of a conversation corpus; recording reader's terminal error and reply stream judged",
-  "For a corpus of 27 DATA/BDAT conversations (SMTP, LMTP, LMTP per-recipient) the client stream is cut after every octet offset with three failure kinds (clean close, timeout-flavoured and reset-flavoured read error) and two segmentations, plus every abandoning command between chunks; the monitor requires a non-EOF terminal error at the backend's reader and no positive reply for every message whose end marker / LAST chunk was not received in full, and EOF only with the full reference content. Exhaustive over the offsets of the corpus, nothing beyond it.",
+  "For a corpus of 27 DATA/BDAT conversations (SMTP, LMTP, LMTP per-recipient) the client stream is cut after every octet offset with three failure kinds (clean close, timeout-flavoured and reset-flavoured read error) and two segmentations, plus every abandoning command between chunks; the monitor requires a non-EOF terminal error at the backend's reader and no positive reply for every message whose end marker / LAST chunk was not received in full, and EOF only with the full reference content. Exhaustive over the offsets of the corpus, nothing beyond it. A Data call that is still open when the peer is gone, every octet has been consumed and the log is quiet is reported as reader-never-fails (state-based, after a watchdog expiry).",
   "Cuts that only remove the CRLF of a zero-size 'BDAT 0 LAST' command line are not judged (all message octets were delivered); partial command lines at EOF are not judged.",
   "DESIGN.md section 5 C07"),
  "C08": ("fault_enumeration",
@@ -44,7 +44,7 @@ CHECKS = {
   "DESIGN.md section 5 C03"),
  "C04": ("exploration",
   "runtime monitoring: strict RFC 5321/2034 reply parser, per-command reply accounting, token attribution, differential execution across sending disciplines, gate-controlled overlap matrix",
-  "The history workload is executed lock-step (per-command arity, syntax, enhanced-code class, unique-token attribution of every backend verdict) and again as pipelined groups and randomly re-cut segments whose reply-code and callback sequences must equal the lock-step run; an overlap matrix enumerates all orders in which a parked delivery of an aborted chunked transaction, the completion of the next transaction and its delivery can happen (gates in the harness backend, no sleeps); control octets are injected at eight reply-echo sites; clock cases let a long (virtual) time pass before each step of a plaintext / implicit-TLS / STARTTLS conversation and fire the deadline of every direction whose timeout is not configured: every step must still be answered; slow-callback cases park Mail / Rcpt while DATA or BDAT is already pipelined and let the read deadline expire meanwhile.",
+  "The history workload is executed lock-step (per-command arity, syntax, enhanced-code class, unique-token attribution of every backend verdict) and again as pipelined groups and randomly re-cut segments whose reply-code and callback sequences must equal the lock-step run; an overlap matrix enumerates all orders in which a parked delivery of an aborted chunked transaction, the completion of the next transaction and its delivery can happen (gates in the harness backend, no sleeps); control octets are injected at eight reply-echo sites; clock cases let a long (virtual) time pass before each step of a plaintext / implicit-TLS / STARTTLS conversation and fire the deadline of every direction whose timeout is not configured: every step must still be answered; slow-callback cases park Mail / Rcpt while DATA or BDAT is already pipelined and let the read deadline expire meanwhile. Virtual-clock cases: a backend callback (Mail, Rcpt, or the verdict after the whole message was read) is parked while ReadTimeout and / or WriteTimeout expire, and every reply that follows must still arrive; a connection whose writes fail from the k-th on is followed by an ordinary conversation on a second connection of the same server, which must get its own replies and nothing else.",
   "Reply wording and codes are judged only where the statement fixes them; 8-bit reply text not judged.",
   "DESIGN.md section 5 C04"),
  "C19": ("exploration",
@@ -64,7 +64,7 @@ CHECKS = {
   "DESIGN.md section 5 C10"),
  "C12": ("exploration",
   "runtime monitoring over the exhaustively enumerated configuration space: capability set vs reference function, one behavioural probe per extension",
-  "All 4096 configurations (5 extension flags x size limit x recipient limit x four TLS states x AllowInsecureAuth x backend kind x SMTP/LMTP) are instantiated as real servers; the EHLO/LHLO capability set (order-free, exact arguments) is compared with a reference function written from the statement, HELO must list nothing, every extension parameter is probed (250 iff enabled, 504 iff disabled), STARTTLS/AUTH/SIZE/RCPTMAX/BDAT are exercised, BINARYMIME is honoured and does not leak into the next transaction, and the capability set is checked again after a successful AUTH, after a successful STARTTLS and after a STARTTLS whose handshake failed, for the state the connection is then in. exhaustive=true for the configuration space; one probe input per extension.",
+  "All 4096 configurations (5 extension flags x size limit x recipient limit x four TLS states x AllowInsecureAuth x backend kind x SMTP/LMTP) are instantiated as real servers; the EHLO/LHLO capability set (order-free, exact arguments) is compared with a reference function written from the statement, HELO must list nothing, every extension parameter is probed (250 iff enabled, 504 iff disabled), STARTTLS/AUTH/SIZE/RCPTMAX/BDAT are exercised, BINARYMIME is honoured and does not leak into the next transaction, and the capability set is checked again several connections of one server whose sessions offer different SASL mechanism lists (one after the other, and with one greeting held inside AuthMechanisms while another connection is greeted and answered) must each be told what their own state and session give; after a successful AUTH, after a successful STARTTLS and after a STARTTLS whose handshake failed, for the state the connection is then in. exhaustive=true for the configuration space; one probe input per extension. Round 8 added 192 multi-connection cases: several connections of ONE server whose sessions offer different SASL mechanism lists - one after the other (the second upgraded with STARTTLS and greeted again), and with one greeting held inside AuthMechanisms on a gate while another connection (plaintext / implicit TLS) is greeted and answered - must each be told what their own state and their own session give.",
   "AUTH= on servers not advertising AUTH and REQUIRETLS on plaintext connections of servers that enable it are not judged.",
   "DESIGN.md section 5 C12"),
  "C11": ("exploration",
@@ -104,7 +104,7 @@ CHECKS = {
   "DESIGN.md section 5 C15"),
  "C20": ("exploration",
   "runtime monitoring: Go race detector over enumerated event orders and close/callback overlaps; porcupine linearizability check of concurrent Close/Shutdown histories; termination and goroutine-table checks; scripted Accept errors",
-  "Under the race-detector build (GOMAXPROCS default and 1; also 4 and a non-race pass in thorough): all orders of up to three (thorough: four) harness events from {delivery completes, RSET, next transaction, QUIT, disconnect, Server.Close, Server.Shutdown} against a parked BDAT delivery, a parked LMTP DATA delivery, a parked LMTP BDAT delivery, a parked BDAT delivery of an LMTP server over a plain Session and a BDAT delivery of a backend that serialises Data and Reset with its own mutex; connections idle, in their implicit-TLS handshake, stalled inside a STARTTLS handshake only just handed out by Accept, or handed out at the very moment the listener is closed, when Close / Shutdown fires; Shutdown with a context that has already expired; Server.Close overlapping each callback kind parked on a gate, and called directly from callbacks; groups of 2..8 barrier-released Close/Shutdown callers on one or two listeners (one of them failing to close) whose recorded call/return history is checked by porcupine against the sequential model 'first caller gets the listener result, later ones ErrServerClosed'; all sequences of up to five temporary/permanent Accept errors; 2..4 listeners of which one Serve ends early on a permanent Accept error while the others keep serving and must all be closed by Close / Shutdown; replays of C03/C05/C13 cases for race coverage. Race reports are parsed, de-duplicated by racing statement pair and are violations; Serve/handlers/deliveries must terminate and no library goroutine may remain at the end.",
+  "Under the race-detector build (GOMAXPROCS default and 1; also 4 and a non-race pass in thorough): all orders of up to three (thorough: four) harness events from {delivery completes, RSET, next transaction, QUIT, disconnect, Server.Close, Server.Shutdown} against a parked BDAT delivery, a parked LMTP DATA delivery, a parked LMTP BDAT delivery, a parked BDAT delivery of an LMTP server over a plain Session and a BDAT delivery of a backend that serialises Data and Reset with its own mutex; connections idle, in their implicit-TLS handshake, stalled inside a STARTTLS handshake only just handed out by Accept, or handed out at the very moment the listener is closed, or blocked in the write of a reply because the peer has stopped reading, when Close / Shutdown fires; Shutdown with a context that has already expired; Server.Close overlapping each callback kind parked on a gate, and called directly from callbacks; groups of 2..8 barrier-released Close/Shutdown callers on one or two listeners (one of them failing to close) whose recorded call/return history is checked by porcupine against the sequential model 'first caller gets the listener result, later ones ErrServerClosed'; all sequences of up to five temporary/permanent Accept errors; 2..4 listeners of which one Serve ends early on a permanent Accept error while the others keep serving and must all be closed by Close / Shutdown; replays of C03/C05/C13 cases for race coverage. Race reports are parsed, de-duplicated by racing statement pair and are violations; Serve/handlers/deliveries must terminate and no library goroutine may remain at the end.",
   "The race detector sees only executed accesses; interleavings are diversified by enumerated orders, gates, yields and GOMAXPROCS, not exhausted.",
   "DESIGN.md section 5 C20"),
 }
